@@ -22,7 +22,7 @@
 
 namespace vp {
 
-static const int NKINDS = 4;  // budget kinds: 1..NKINDS-1 (0 = free / default)
+static const int NKINDS = 5;  // budget kinds: 1..NKINDS-1 (0 = free / default)
 
 struct ChoicePoint {
   uint16_t n;
@@ -33,7 +33,7 @@ struct ChoicePoint {
 
 class Explorer {
  public:
-  int budget[NKINDS] = {0, 0, 0, 0};
+  int budget[NKINDS] = {0, 0, 0, 0, 0};
   bool useHash = false;
   bool collectOnly = false;
   std::unordered_map<uint64_t, std::string>* debugPaths = nullptr;  // state -> first choice path (debug)  // compute and record state hashes but never prune (validation of the fingerprint)
@@ -124,7 +124,7 @@ class Explorer {
         const ChoicePoint& cp = trace[i];
         for (int a = cp.n - 1; a >= 1; a--) {
           int k = cp.kinds[a];
-          if (k == 0 || cp.left[k] <= 0) continue;
+          if (k != 0 && cp.left[k] <= 0) continue;  // kind 0 at a>0: free alternative (forced switch)
           if (first && nslices > 1 && (int)(ordinal++ % nslices) != slice) continue;
           std::vector<uint16_t> np;
           np.reserve(i + 1);
